@@ -345,3 +345,10 @@ Definition init_ltab (cs : list cls) (os : list obj) : list node :=
                               (c_traits c))
            (seq 0 (length os)).
 Definition init_state (cs : list cls) (os : list obj) : state := mkS cs os (init_ltab cs os).
+
+(* construction with keyword arguments (Obj(parent=p, x=5)): the local value is stored and
+   setattr_delegate detaches the forwarder just attached by _init_trait_listeners (ctraits.c l.2628-2640) *)
+Definition init_ltab_k (cs : list cls) (os : list obj) : list node :=
+  filter (fun x => match nassoc (snd x) (o_dict (nth (fst x) os dummy_obj)) with Some _ => false | None => true end)
+         (init_ltab cs os).
+Definition init_state_k (cs : list cls) (os : list obj) : state := mkS cs os (init_ltab_k cs os).
